@@ -368,20 +368,38 @@ void thrift_read_map_begin(thrift_decoder_t* dec,
  */
 
 /**
+ * Maximum nesting of containers/structs inside a skipped value. Skipping is
+ * recursive; without a bound a crafted value (e.g. a list of a list of a
+ * list ...) exhausts the stack.
+ */
+#define THRIFT_MAX_SKIP_DEPTH 64
+
+static void skip_value(thrift_decoder_t* dec, thrift_type_t type, int depth);
+
+/**
  * Skip one element of a list, set or map. Unlike a struct field, whose
  * boolean value is folded into the field header, a boolean container
  * element occupies one byte on the wire.
  */
-static void skip_element(thrift_decoder_t* dec, thrift_type_t type) {
+static void skip_element(thrift_decoder_t* dec, thrift_type_t type, int depth) {
     if (type == THRIFT_TYPE_TRUE || type == THRIFT_TYPE_FALSE) {
         (void)read_byte_raw(dec);
         return;
     }
-    thrift_skip(dec, type);
+    skip_value(dec, type, depth);
 }
 
 void thrift_skip(thrift_decoder_t* dec, thrift_type_t type) {
+    skip_value(dec, type, 0);
+}
+
+static void skip_value(thrift_decoder_t* dec, thrift_type_t type, int depth) {
     if (dec->status != CARQUET_OK) {
+        return;
+    }
+
+    if (depth > THRIFT_MAX_SKIP_DEPTH) {
+        set_error(dec, CARQUET_ERROR_THRIFT_DECODE, "Skipped value nested too deep");
         return;
     }
 
@@ -425,7 +443,7 @@ void thrift_skip(thrift_decoder_t* dec, thrift_type_t type) {
             int32_t count;
             thrift_read_list_begin(dec, &elem_type, &count);
             for (int32_t i = 0; i < count && dec->status == CARQUET_OK; i++) {
-                skip_element(dec, elem_type);
+                skip_element(dec, elem_type, depth + 1);
             }
             break;
         }
@@ -435,8 +453,8 @@ void thrift_skip(thrift_decoder_t* dec, thrift_type_t type) {
             int32_t count;
             thrift_read_map_begin(dec, &key_type, &value_type, &count);
             for (int32_t i = 0; i < count && dec->status == CARQUET_OK; i++) {
-                skip_element(dec, key_type);
-                skip_element(dec, value_type);
+                skip_element(dec, key_type, depth + 1);
+                skip_element(dec, value_type, depth + 1);
             }
             break;
         }
@@ -446,7 +464,7 @@ void thrift_skip(thrift_decoder_t* dec, thrift_type_t type) {
             thrift_type_t field_type;
             int16_t field_id;
             while (thrift_read_field_begin(dec, &field_type, &field_id)) {
-                thrift_skip(dec, field_type);
+                skip_value(dec, field_type, depth + 1);
             }
             thrift_read_struct_end(dec);
             break;
